@@ -280,6 +280,8 @@ class SeqExec(Structured):
                 return ('values', base)
             if e.attr == 'loc':
                 return ('loc', base)
+            if e.attr == 'iloc':
+                return ('iloc', base)
         return ('opaque', t)
 
     def ev_Subscript(self, e, st):
@@ -287,6 +289,16 @@ class SeqExec(Structured):
         sl = e.slice
         if base[0] == 'loc' and isinstance(sl, ast.Tuple) and len(sl.elts) == 2 and U(sl.elts[0]) == ':':
             return ('select', base[1], iterview(self.ev(sl.elts[1], st)))
+        if base[0] == 'iloc' and isinstance(sl, ast.Tuple) and len(sl.elts) == 2 and U(sl.elts[0]) == ':':
+            # columns by POSITION: `F.iloc[:, D.axes(cols)]` - the positions of `cols` in D's order.  For the dataset's own frame and domain
+            # that is the by-name selection (the constructor keeps self.df in the order of self.domain: column-order rule)
+            ix = sl.elts[1]
+            while isinstance(ix, ast.Call) and isinstance(ix.func, ast.Name) and ix.func.id in ('list', 'tuple') and len(ix.args) == 1:
+                ix = ix.args[0]
+            if isinstance(ix, ast.Call) and isinstance(ix.func, ast.Attribute) and ix.func.attr == 'axes' and len(ix.args) == 1 \
+                    and U(ix.func.value) == 'self.domain' and base[1] == ('frame', 'self.df'):
+                return ('select', base[1], iterview(self.ev(ix.args[0], st)))
+            return ('opaque', U(e))
         if base[0] in ('frame', 'select') and not isinstance(sl, (ast.Tuple, ast.Slice)):
             return ('select', base, iterview(self.ev(sl, st)))
         if base[0] == 'config':
